@@ -24,14 +24,16 @@ MANIFEST = dict(
     note=lib.TB + "Additionally trusted: tools/gen_wire.py (reads struct/field/type/message_id/enum order; anything it does not "
          "understand is an error) - its reading of names and field lists is re-checked by rustc (generated harness code) "
          "and its type-to-codec mapping by the byte comparison. Modelled, not verified: rust-bitcoin Transaction/PSBT and "
-         "txoo TxoProof encodings (opaque blobs; their round trips are premises of the theorems). The `developer` cargo "
-         "feature (HsmdDevPreinit*, TLV options) is off, as in the production build.",
+         "txoo TxoProof encodings (opaque blobs; their round trips are premises of the theorems). The harness builds "
+         "vls-protocol with its `developer` feature (as the crate's own tests do), so HsmdDevPreinit, HsmdDevPreinit2 (TLV option "
+         "stream: Base/Tlv.v models LDK's encode/decode_tlv_stream for `option` fields, no size cap other than the frame's) and "
+         "HsmdDevPreinitReply are part of the registry.",
     technique="Coq proof over a translator-generated model (regenerated and re-proved per run) + vm_compute correspondence "
               "with the Rust implementation",
 )
 
 PINNED = ["C19_ids_unique", "C19_struct_codecs", "C19_registry", "C19_wf_from_size", "C19_registry_sized", "C19_psbt_sound", "C19_psbt_accepts", "C19_psbt_bare_claims", "C19_psbt_bare_legacy_refused",
-          "C19_streamed_field", "C19_frame", "C19_framed_stream", "C19_read_message", "C19_nonvacuous", "C19_psbt_nonvacuous", "C19_duplicate_id_misroutes",
+          "C19_streamed_field", "C19_frame", "C19_framed_stream", "C19_read_message", "C19_nonvacuous", "C19_tlv_nonvacuous", "C19_psbt_nonvacuous", "C19_duplicate_id_misroutes",
           "C19_old_id20_refuted"]
 
 
@@ -174,6 +176,8 @@ def run(res):
                 "2^k, 2^k-1 and random, embedded random transactions / PSBTs / TxoProofs, and each variable-length site (Octets, "
                 "LargeOctets, WireString, Array, ArrayBE; quick: up to 4 per type rotated by seed) driven to the largest denotable "
                 "length that fits MAX_MESSAGE_SIZE (exactly 131072 bytes where the unit is one byte), one more (refused as too large), "
+                "the largest lengths with total size <= 65535 / 65536 / 65537, for TLV option streams every array count from just below a "
+                "65535-byte stream to 150 beyond it (so that a record ends exactly at byte 65535 with further records behind it), "
                 "65536 bytes of Octets / a NUL in a WireString (as_vec panics) and 65536 array elements (count truncated: observation); "
                 "framed: sequences of 2-4 messages (every registry type first or second in some sequence; minimal / maximal / random / one "
                 "long message) written with msgs::write (must equal write_vec(as_vec())), read back with msgs::read, read_message::<T> and "
@@ -202,5 +206,5 @@ def run(res):
         "blob_laws: rust-bitcoin's Transaction and Psbt and txoo's TxoProof decode their own encodings (premise of the theorems; exercised by the harness, not proved)",
         "tools/gen_wire.py reads the declarations faithfully (struct and field names re-checked by rustc through the generated harness code; codecs re-checked bytewise on this run's values)",
         "the hand-written combinators (Base/Codec.v), dispatch (Model/Wire.v from_vec) and streamed_post agree with serde_bolt / bitcoin-consensus-derive / bolt-derive / psbt.rs: differential testing on this run's cases, bounded by the generator described in coverage.rule",
-        "cargo feature `developer` off (production registry)",
+        "cargo feature `developer` on in the harness build and in the translator (the registry then has 3 more messages; the non-developer registry is a subset with the same codecs)",
     ]
